@@ -114,6 +114,7 @@ void Normalizer::TupleDeclaration(
 std::string Normalizer::ProcessTupleDeclaration(SyntaxTree::Node& root) {
   tupleSubstitutes.clear();
   std::string newName{ '@' };
+  std::string signature{};
 
   std::stack<const SyntaxTree::Node*> nodeStack{};
   std::stack<std::vector<Index>> pathStack{};
@@ -127,6 +128,8 @@ std::string Normalizer::ProcessTupleDeclaration(SyntaxTree::Node& root) {
     if (curNode->token.id == TokenID::ID_LOCAL) {
       const auto& name = curNode->token.data.ToText();
       newName += name;
+      signature += name;
+      signature += ',';
       tupleSubstitutes.insert({ name, curPath });
     } else if (const auto childCount = curNode->ChildrenCount(); childCount > 0) {
       for (auto child = static_cast<Index>(childCount - 1); child >= 0; --child) {
@@ -136,6 +139,11 @@ std::string Normalizer::ProcessTupleDeclaration(SyntaxTree::Node& root) {
         curPath.pop_back();
       }
     }
+  }
+  // Note: different patterns can concatenate to one name: (a,bc) and (ab,c)
+  const auto baseName = newName;
+  for (uint32_t copy = 1; tupleNames.try_emplace(newName, signature).first->second != signature; ++copy) {
+    newName = baseName + '@' + std::to_string(copy);
   }
   root.RemoveAll();
   root.token.data = TokenData{ newName };
